@@ -1,0 +1,6 @@
+//go:build !verif
+
+package dv
+
+// verifGate is a scheduling point for the deterministic simulator (build tag "verif"); a no-op otherwise.
+func (dv *Router) verifGate(string) {}
